@@ -167,7 +167,7 @@ REG = {
         "level_note": "Advance(d) subtracts d from the recorded create/update times, which is equivalent to the wall clock moving forward because the code only compares time.Now() with those fields. Decision points closer than 0.4 s to a deadline are excluded by construction (and counted if they occur). Ambiguous readings are avoided by construction: after an advance the next inbound data is never a packet of a pending transfer.",
         "rule": "rapid timelines driven by the same model the oracle uses; non-trivial = some re-request names >= 2 missing packets and an advance crosses 5 s",
         "assumptions": ["virtual clock hook is a faithful stand-in for wall-clock time (validated by the real-clock scenario in the thorough tier of the socket engine)"],
-        "required_buckets": {"any": ["advance_crosses_5s", "advance_crosses_60s", "missing>=2", "rounds>=2", "two_transfers", "N>=10"]},
+        "required_buckets": {"any": ["advance_crosses_5s", "advance_crosses_60s", "missing>=2", "rounds>=2", "two_transfers", "N>=10", "transfer_restarted"]},
         "parts": [
             rapid("ext", "TestC14", 1500, 30000),
             enum("ext", "TestC14Enum", 4, 16),
@@ -193,7 +193,7 @@ REG = {
         "level_note": "The test process chdirs into the sandbox (one process per shard). file.log in the working directory is the handler's own log and is allowed. Rejecting or sanitising a name both pass.",
         "rule": "rapid names from a fragment grammar; non-trivial = the name contains a separator or a '..' component",
         "assumptions": [],
-        "required_buckets": {"any": ["name_with_separator_or_dotdot", "files_stored"]},
+        "required_buckets": {"any": ["name_with_separator_or_dotdot", "files_stored", "end_eof", "end_garbage_frame", "end_unknown_command", "end_bad_checksum"]},
         "parts": [
             rapid("ext", "TestC19", 150, 4000),
         ],
@@ -220,10 +220,10 @@ REG = {
         "level_note": "The reply to a completed sub-packaged transfer is awaited before the terminal sends more (its position among replies of the same read is otherwise unobservable). The read callback sleeps 1 ms in most scenarios so a reply written before the callback would be seen first. Missed deadlines are soft evidence (re-run, 2 of 3). Serial wrap-around over 65536 replies is part of the thorough tier (TestC06Wrap).",
         "rule": "rapid conversations; non-trivial = some connection has >= 3 reply-bearing requests and >= 1 message that must not be answered",
         "assumptions": ["loopback TCP; child process per scenario; reference frame codec"],
-        "required_buckets": {"any": ["msg_0100", "msg_0102", "msg_0801", "msg_1212", "msg_1003", "auth_bad", "auth_ok", "kind_noreply", "kind_unsupported", "sub_packaged", "hdr2019", "handlers_parse_all", "terminals_3"]},
+        "required_buckets": {"any": ["msg_0100", "msg_0102", "msg_0801", "msg_1212", "msg_1003", "auth_bad", "auth_ok", "kind_noreply", "kind_unsupported", "sub_packaged", "hdr2019", "handlers_parse_all", "terminals_3", "wrap_reached"]},
         "parts": [
             rapid("sys", "TestC06", 25, 500, qs=12, ts=16),
-            enum("sys", "TestC06Wrap", 1, 1, tiers=["thorough"], timeout={"thorough": 900}),
+            enum("sys", "TestC06Wrap", 1, 1, timeout={"quick": 300, "thorough": 900}),
         ],
     },
     "C12": {
@@ -233,19 +233,20 @@ REG = {
         "level_note": "0x1003 is excluded (its body carries no serial). At most 3 calls target one terminal at the same instant in this property (more is C13's stress). Timing-dependent verdicts are soft evidence (re-run, 2 of 3).",
         "rule": "rapid call sets x terminal behaviours; non-trivial = >= 2 calls outstanding on one terminal and (held responses released in reverse order or >= 3 calls)",
         "assumptions": ["loopback TCP; child process per scenario"],
-        "required_buckets": {"any": ["behaviour_answer", "behaviour_hold", "behaviour_dup", "behaviour_wrong_serial", "behaviour_ignore", "behaviour_late", "concurrent_calls_one_terminal", "responses_out_of_order"]},
+        "required_buckets": {"any": ["behaviour_answer", "behaviour_hold", "behaviour_dup", "behaviour_wrong_serial", "behaviour_ignore", "behaviour_late", "concurrent_calls_one_terminal", "responses_out_of_order", "serial_wrap"]},
         "parts": [
             rapid("sys", "TestC12", 10, 300, qs=12, ts=16),
+            enum("sys", "TestC12Wrap", 1, 1, timeout={"quick": 300, "thorough": 900}),
         ],
     },
     "C13": {
         "level": "fault_enumeration",
-        "technique": "fault enumeration by generated scenarios: six disconnect points (before join, with q queued commands, on receiving a command, during a slow write callback, around timer expiry, during a duplicate-key refusal) x close/reset x q in 0..6 x timeouts x seeded micro-delays, each in a fresh child process; oracle = process alive + every call returned within timeout + slack + a fresh terminal can be commanded afterwards",
+        "technique": "fault enumeration by generated scenarios: seven disconnect points (before join, with q queued commands, on receiving a command, during a slow write callback, around timer expiry, during a duplicate-key refusal, while the session manager lags behind another terminal's full command queue) x close/reset x q in 0..6 x timeouts x seeded micro-delays, each in a fresh child process; oracle = process alive + every call returned within timeout + slack + a fresh terminal can be commanded afterwards",
         "level_text": "Hard evidence: the child must exit normally and print its history (no 'send on closed channel', no deadlock). Soft evidence (re-run, 2 of 3): every in-flight SendActiveMessage call returned exactly once within timeout + 3 s with a response or an error; afterwards a fresh terminal (optionally re-using the victim's key) joins, is commanded and answers.",
         "level_note": "Schedule search, not schedule enumeration: the harness owns terminals, callers, fault points and barrier-released micro-delays but not the Go scheduler; a window narrower than the injected jitter can be missed.",
         "rule": "rapid over (fault point, q, timeouts, close mode, delays); non-trivial = at least one call in flight at the instant of the fault",
         "assumptions": ["loopback TCP; child process per scenario"],
-        "required_buckets": {"any": ["fault_before_join", "fault_close_with_queued", "fault_close_on_command", "fault_slow_write_callback", "fault_close_at_timeout", "fault_duplicate_key", "close_rst", "q_6", "key_reused_after_fault"]},
+        "required_buckets": {"any": ["fault_before_join", "fault_close_with_queued", "fault_close_on_command", "fault_slow_write_callback", "fault_close_at_timeout", "fault_duplicate_key", "fault_manager_lag", "close_rst", "q_6", "key_reused_after_fault"]},
         "parts": [
             rapid("sys", "TestC13", 25, 600, qs=12, ts=16),
         ],
